@@ -165,6 +165,10 @@ def classify(fn, info, exp, got):
         return 'bytes-literal-object-target-yields-bytes'
     if kind.startswith('bytes-literal') and kind.endswith('-rev') and fn.typing == 'literal':
         return 'bytes-literal-object-target-yields-bytes'
+    if kind.startswith('bytes-literal') and fn.typing == 'literal' and "['bytes', " in str(got) and "['bytes', " not in str(exp):
+        # same mechanism with a target that is not inferred as a C integer (e.g. a loop variable that is also read after
+        # the loop and may be unbound there: since repo fix d058c0a38 such a variable stays a Python object)
+        return 'bytes-literal-object-target-yields-bytes'
     return '%s:%s:mut=%s:%s:%s->%s' % (kind, tcls, mut, feat, ek, gk)
 
 
